@@ -26,7 +26,7 @@ enum Ev {
 }
 
 const N_DESCR: usize = 3;
-const N_EMIT: usize = 6;
+const N_EMIT: usize = 10;
 
 fn describe(rec: &TcpRecorder, i: usize) {
     describe_paced(rec, i, true)
@@ -78,7 +78,12 @@ fn emit(rec: &TcpRecorder, i: usize, seqno: u64) {
         2 => rec.register_gauge(&Key::from_parts("g_m", vec![Label::new("l", "é")]), &META).increment(seqno as f64 + 0.5),
         3 => rec.register_gauge(&Key::from_name("g_m"), &META).decrement(seqno as f64),
         4 => rec.register_gauge(&Key::from_name("g_m"), &META).set(-(seqno as f64)),
-        _ => rec.register_histogram(&Key::from_name("h_m"), &META).record(seqno as f64 * 0.25),
+        5 => rec.register_histogram(&Key::from_name("h_m"), &META).record(seqno as f64 * 0.25),
+        // values that carry no information of their own (the frame is identified by its name): zero, NaN, infinity
+        6 => rec.register_counter(&Key::from_name(format!("z{}", seqno)), &META).increment(0),
+        7 => rec.register_counter(&Key::from_name(format!("z{}", seqno)), &META).absolute(0),
+        8 => rec.register_gauge(&Key::from_name(format!("z{}", seqno)), &META).set(f64::NAN),
+        _ => rec.register_histogram(&Key::from_name(format!("z{}", seqno)), &META).record(f64::INFINITY),
     }
 }
 fn expected_metric(i: usize, seqno: u64) -> Frame {
@@ -89,7 +94,11 @@ fn expected_metric(i: usize, seqno: u64) -> Frame {
         2 => f("g_m", vec![("l", "é")], format!("increment_gauge({})", seqno as f64 + 0.5)),
         3 => f("g_m", vec![], format!("decrement_gauge({})", seqno as f64)),
         4 => f("g_m", vec![], format!("set_gauge({})", -(seqno as f64))),
-        _ => f("h_m", vec![], format!("record_histogram({})", seqno as f64 * 0.25)),
+        5 => f("h_m", vec![], format!("record_histogram({})", seqno as f64 * 0.25)),
+        6 => f(&format!("z{}", seqno), vec![], "increment_counter(0)".to_string()),
+        7 => f(&format!("z{}", seqno), vec![], "set_counter(0)".to_string()),
+        8 => f(&format!("z{}", seqno), vec![], format!("set_gauge({})", f64::NAN)),
+        _ => f(&format!("z{}", seqno), vec![], format!("record_histogram({})", f64::INFINITY)),
     }
 }
 
@@ -937,7 +946,7 @@ fn main() {
     driver::main(CheckDef {
         prop: "C11",
         level: "model_checking",
-        rule: "every well-formed history of at most N events over {connect(i), connect(i) immediately followed by an emit (no barrier: the accept and the metric can share a wake-up), read(i), close(i), reset(i) (SO_LINGER 0), describe(counter | gauge + histogram), emit(6 operations incl. labels)} with 2-3 clients, for buffer_size in {Some(1), Some(2), Some(1024), None}, against a fresh real exporter (public TcpBuilder::build) with a quiescence barrier after every event (wake; wait for a fully processed batch; twice), plus for fan-out histories every assignment of at most d deviating answers {Short(1), Short(5), WouldBlock} to the exporter's first write calls (deviation-bounded, default Full); every client's byte stream is decoded by an independent protobuf wire parser: whole frames only, metadata known at connect first, then exactly the emits issued while connected, in order, intact, no duplicates (with a small buffer and held-back writes only older frames may be missing); the same histories with every contiguous run of >= 2 events delivered to the transport thread as ONE poll batch (the thread is parked between two polls by a hook while the harness causes them; runs whose channel traffic exceeds the buffer excluded); one scripted real back-pressure history per buffer config; per buffer config 12 rounds of two back-to-back emits awaited with no other wake-up source (lost wake-ups); distinct = distinct per-client delivery summaries",
+        rule: "every well-formed history of at most N events over {connect(i), connect(i) immediately followed by an emit (no barrier: the accept and the metric can share a wake-up), read(i), close(i), reset(i) (SO_LINGER 0), describe(counter | gauge + histogram), emit(10 operations incl. labels, a zero increment / absolute, a NaN gauge value, an infinite sample)} with 2-3 clients, for buffer_size in {Some(1), Some(2), Some(1024), None}, against a fresh real exporter (public TcpBuilder::build) with a quiescence barrier after every event (wake; wait for a fully processed batch; twice), plus for fan-out histories every assignment of at most d deviating answers {Short(1), Short(5), WouldBlock} to the exporter's first write calls (deviation-bounded, default Full); every client's byte stream is decoded by an independent protobuf wire parser: whole frames only, metadata known at connect first, then exactly the emits issued while connected, in order, intact, no duplicates (with a small buffer and held-back writes only older frames may be missing); the same histories with every contiguous run of >= 2 events delivered to the transport thread as ONE poll batch (the thread is parked between two polls by a hook while the harness causes them; runs whose channel traffic exceeds the buffer excluded); one scripted real back-pressure history per buffer config; per buffer config 12 rounds of two back-to-back emits awaited with no other wake-up source (lost wake-ups); distinct = distinct per-client delivery summaries",
         assumptions: &["kernel / mio readiness order inside one epoll batch is not enumerated: one harness event at a time, exporter run to quiescence in between", "Interrupted is not in the write-answer alphabet (a non-blocking socket write cannot return EINTR on Linux)", "every history ends with one extra emit so that frames held back by an injected short or would-block answer are driven out"],
         parts,
         run,
